@@ -12,6 +12,8 @@ trait Elem: PartialOrd + Clone + Debug + Send + Sync + 'static {
     fn is_nan_(&self) -> bool;
     fn bits(&self) -> u64;
 }
+/// the crate's own ordered wrapper of a non-missing `Option<i32>`
+type NotNoneI32 = <Option<i32> as ndarray_stats::MaybeNan>::NotNan;
 impl Elem for f64 {
     fn is_nan_(&self) -> bool {
         self.is_nan()
@@ -39,9 +41,25 @@ impl Elem for i32 {
 
 /// Checks the four routines on one array; returns an observation hash.
 fn check_all<T: Elem, S: Data<Elem = T>, D: Dimension>(a: &ArrayBase<S, D>, tag: &str, lx: &mut Local) -> u64 {
+    check_all_with(a, tag, &|x: &T| x.is_nan_(), &|x: &T| x.bits(), &|x: &T, y: &T| x <= y, &|x: &T, y: &T| x == y, lx)
+}
+
+/// `le` / `eq`: the harness's own order and equality on the element type (the type's operators for the
+/// primitive types; the wrapped integers for the crate's `NotNone`, whose hand-written comparison impls
+/// are part of what is checked).
+#[allow(clippy::too_many_arguments)]
+fn check_all_with<T: PartialOrd + Clone + Debug, S: Data<Elem = T>, D: Dimension>(
+    a: &ArrayBase<S, D>,
+    tag: &str,
+    is_nan: &dyn Fn(&T) -> bool,
+    bits: &dyn Fn(&T) -> u64,
+    le: &dyn Fn(&T, &T) -> bool,
+    eq: &dyn Fn(&T, &T) -> bool,
+    lx: &mut Local,
+) -> u64 {
     let elems: Vec<T> = a.iter().cloned().collect();
     let empty = elems.is_empty();
-    let has_nan = elems.iter().any(|e| e.is_nan_());
+    let has_nan = elems.iter().any(|e| is_nan(e));
     let desc = || format!("{} shape {:?} strides {:?} logical content {:?}", tag, a.shape(), a.strides(), elems);
     let mut obs: Vec<String> = Vec::new();
 
@@ -64,7 +82,7 @@ fn check_all<T: Elem, S: Data<Elem = T>, D: Dimension>(a: &ArrayBase<S, D>, tag:
                 continue;
             }
         };
-        let extremal = |v: &T| elems.iter().all(|e| if is_min { v <= e } else { v >= e });
+        let extremal = |v: &T| elems.iter().all(|e| if is_min { le(v, e) } else { le(e, v) });
         match (&argr, &want_err) {
             (Ok(p), None) => {
                 let idx: Vec<usize> = p.clone().into_dimension().slice().to_vec();
@@ -75,9 +93,9 @@ fn check_all<T: Elem, S: Data<Elem = T>, D: Dimension>(a: &ArrayBase<S, D>, tag:
                 let v = a[p.clone().into_dimension()].clone();
                 lx.check(extremal(&v), "C05/arg-not-extremal", || format!("arg{} returned {:?} (value {:?}) which is not an extremum of {}", name, idx, v, desc()));
                 if let Ok(val) = &valr {
-                    lx.check(v == *val, "C05/arg-and-value-disagree", || format!("a[arg{}] = {:?} but {} = {:?} on {}", name, v, name, val, desc()));
+                    lx.check(eq(&v, val), "C05/arg-and-value-disagree", || format!("a[arg{}] = {:?} but {} = {:?} on {}", name, v, name, val, desc()));
                 }
-                obs.push(format!("{:?}", v.bits()));
+                obs.push(format!("{:?}", bits(&v)));
             }
             (Err(e), Some(w)) => {
                 lx.check(e == w, "C05/wrong-error", || format!("arg{} returned Err({:?}), expected Err({:?}) on {}", name, e, w, desc()));
@@ -89,7 +107,7 @@ fn check_all<T: Elem, S: Data<Elem = T>, D: Dimension>(a: &ArrayBase<S, D>, tag:
         match (&valr, &want_err) {
             (Ok(v), None) => {
                 lx.check(extremal(v), "C05/value-not-extremal", || format!("{} returned {:?} which is not an extremum of {}", name, v, desc()));
-                lx.check(elems.iter().any(|e| e == v), "C05/value-not-an-element", || format!("{} returned {:?} which is not an element of {}", name, v, desc()));
+                lx.check(elems.iter().any(|e| eq(e, v)), "C05/value-not-an-element", || format!("{} returned {:?} which is not an element of {}", name, v, desc()));
             }
             (Err(e), Some(w)) => {
                 lx.check(e == w, "C05/wrong-error", || format!("{} returned Err({:?}), expected Err({:?}) on {}", name, e, w, desc()));
@@ -167,7 +185,7 @@ fn main() {
     pats.extend((1..=imax).flat_map(weak_orders));
     rep.run_sub(
         "int-1d",
-        &format!("every weak-order pattern of length 0..={} as i32 x strides {{1,2,-1}}", imax),
+        &format!("every weak-order pattern of length 0..={} as i32 x strides {{1,2,-1}}, and (length <= 5) as NotNone<i32>, judged through the wrapped integers", imax),
         pats.into_iter().map(|d| Case1 { digits: d }),
         |c, lx| {
             lx.nontrivial(c.digits.len() >= 2);
@@ -177,6 +195,19 @@ fn main() {
                 lx.single(|lx| {
                     let h = Host1::new(&v, step, 1, 55);
                     check_dyn_and_static(h.view().into_dyn(), &format!("i32 step {}", step), lx)
+                });
+            }
+            // the same patterns as arrays of NotNone<i32> (the element type of a lane of Option<i32> once its
+            // missing values are removed): min / max / argmin / argmax go through its partial_cmp
+            if c.digits.len() <= 5 {
+                use ndarray_stats::MaybeNan;
+                let nn: Vec<NotNoneI32> = v.iter().map(|&x| Some(x).try_as_not_nan().unwrap().clone()).collect();
+                lx.single(|lx| {
+                    let a = Array1::from(nn.clone());
+                    let (isn, bits, le, eq) = (|_: &NotNoneI32| false, |x: &NotNoneI32| **x as u32 as u64, |x: &NotNoneI32, y: &NotNoneI32| **x <= **y, |x: &NotNoneI32, y: &NotNoneI32| **x == **y);
+                    let h1 = check_all_with(&a, "NotNone<i32> Ix1", &isn, &bits, &le, &eq, lx);
+                    let h2 = check_all_with(&a.view().into_dyn(), "NotNone<i32> IxDyn", &isn, &bits, &le, &eq, lx);
+                    hash_of(&(h1, h2))
                 });
             }
         },
